@@ -1,5 +1,6 @@
 mod chain;
 mod classify;
+#[cfg(not(feature = "nomutex"))]
 mod conc;
 mod drive;
 #[cfg(feature = "std")]
@@ -28,6 +29,7 @@ fn main() {
             let mut lock = stdin.lock();
             replay::run_replay(&mut lock, out, &opts)
         }
+        #[cfg(not(feature = "nomutex"))]
         Some("conc") => conc::run_conc(args.get(2).expect("spec"), args.get(3).expect("trace"), args.get(4).expect("summary")),
         Some("drive-mock") => {
             let flag = |name: &str| args.iter().position(|a| a == name).and_then(|i| args.get(i + 1)).cloned();
